@@ -204,7 +204,7 @@ def gen_history(rng, opts=None):
         else:
             for _ in range(rng.randrange(1, 5)):
                 r = rng.random()
-                files = sorted(p for p, v in st.items() if v["k"] != "link")
+                files = sorted(p for p, v in st.items() if v["k"] not in ("link", "gitlink"))
                 if r < 0.3:
                     p, c = rng.choice(sel)
                     put(st, ops, p, mode="755" if c == "executable" or rng.random() < 0.1 else "644")
@@ -229,6 +229,11 @@ def gen_history(rng, opts=None):
                     st[p] = dict(st[p])
                     st[p]["mode"] = "755" if st[p]["mode"] == "644" else "644"
                     ops.append({"o": "chmod", "path": p, "mode": st[p]["mode"]})
+            if rng.random() < 0.12:
+                gp = rng.choice([d + "/mod." + e, "vendor/lib", d + "/sub/module"])
+                if gp not in st and free(st, gp):
+                    st[gp] = {"k": "gitlink", "tag": new_tag(), "mode": "160000"}
+                    ops.append({"o": "gitlink", "path": gp})
             if allow_links and rng.random() < 0.25:
                 lp, tgt = rng.choice([("other/link-" + e, "../" + sel[0][0]), (d + "/l." + e, "a." + e),
                                       ("docs/latest", "../README.md"), (d + "/ldir", "sub")])
@@ -289,6 +294,8 @@ def replay_states(hist):
                 st[o["path"]]["mode"] = o["mode"]
             elif o["o"] == "ln":
                 st[o["path"]] = {"k": "link", "target": o["target"], "tag": 0, "mode": "link"}
+            elif o["o"] == "gitlink":
+                st[o["path"]] = {"k": "gitlink", "tag": 0, "mode": "160000"}
         states.append({p: dict(v) for p, v in st.items()})
         if i == hist["fork"]:
             forkstate = {p: dict(v) for p, v in cur["main"].items()}
@@ -336,7 +343,9 @@ def apply_ops(wt, ops):
             os.chmod(p, 0o755 if o["mode"] == "755" else 0o644)
         elif o["o"] in ("rm", "rmwt"):
             p = os.path.join(wt, o["path"])
-            if os.path.lexists(p):
+            if os.path.isdir(p) and not os.path.islink(p):
+                os.rmdir(p)
+            elif os.path.lexists(p):
                 os.remove(p)
         elif o["o"] == "mv":
             a, b = os.path.join(wt, o["from"]), os.path.join(wt, o["to"])
@@ -348,6 +357,8 @@ def apply_ops(wt, ops):
             p = os.path.join(wt, o["path"])
             os.makedirs(os.path.dirname(p), exist_ok=True)
             os.symlink(o["target"], p)
+        elif o["o"] == "gitlink":
+            os.makedirs(os.path.join(wt, o["path"]), exist_ok=True)
 
 
 def ls_tree(repo, commit):
@@ -401,6 +412,9 @@ def build_repo(hist):
             cur = br
         apply_ops(repo, s["ops"])
         git(repo, "add", "-A")
+        for o in s["ops"]:
+            if o["o"] == "gitlink":     # a submodule entry (mode 160000) without a submodule
+                git(repo, "update-index", "--add", "--cacheinfo", "160000,%s,%s" % ("1" * 40, o["path"]))
         git(repo, "commit", "-q", "--allow-empty", "-m", s["msg"], date=BASE_DATE + 60 * i)
         cid = git(repo, "rev-parse", "HEAD").decode().strip()
         ids.append(cid)
@@ -436,13 +450,19 @@ def build_repo(hist):
         r = git(repo, "rev-parse", "-q", "--verify", "refs/heads/" + br, check=False).decode().strip()
         if r:
             heads[br] = r
-    info = {"key": key, "repo": repo, "mid": mid, "ids": ids, "trees": trees, "checkouts": checkouts, "heads": heads}
+    short = []
+    for cid in ids:
+        # unique abbreviations (among all objects) of at least the wanted length
+        short.append({str(n): git(repo, "rev-parse", "--short=%d" % n, cid).decode().strip() for n in (7, 9, 12)})
+    info = {"key": key, "repo": repo, "mid": mid, "ids": ids, "trees": trees, "checkouts": checkouts, "heads": heads,
+            "short": short}
     # self-check of the generator: git's tree of every commit is the recorded state
     states = replay_states(hist)
     for i, st in enumerate(states):
         want = {}
         for p, v in st.items():
-            want[p] = "120000" if v["k"] == "link" else ("100755" if v["mode"] == "755" else "100644")
+            want[p] = "120000" if v["k"] == "link" else "160000" if v["k"] == "gitlink" else (
+                "100755" if v["mode"] == "755" else "100644")
         got = {t["path"]: t["mode"] for t in trees[i] if t["type"] != "tree"}
         if want != got:
             raise RuntimeError("generator self-check failed at step %d: recorded %s, git has %s" % (
@@ -492,16 +512,16 @@ def selector_forms(hist, idx, stage):
     return forms
 
 
-def resolve_selector(form, cid):
+def resolve_selector(form, cid, short=None):
     h = form["how"]
     if h == "id":
         return {"commit": cid}
     if h == "abbrev":
-        return {"commit": cid[:form["n"]]}
+        return {"commit": (short or {}).get(str(form["n"]), cid[:form["n"]])}
     if h == "refid":
         return {"ref": cid}
     if h == "refabbrev":
-        return {"ref": cid[:form["n"]]}
+        return {"ref": (short or {}).get(str(form["n"]), cid[:form["n"]])}
     return {"ref": form["name"]}
 
 
@@ -674,6 +694,8 @@ class C08(PropBase):
                 if v["k"] == "link":
                     c = "symlink"
                     d["commits_with_symlink"].add(ck)
+                elif v["k"] == "gitlink":
+                    c = "submodule-entry"
                 elif c and v["mode"] == "755" and c != "executable":
                     c = c + "+x"
                 if c:
@@ -765,7 +787,7 @@ class C08(PropBase):
         if case.get("repo_form") == "dotgit":
             repo = os.path.join(repo, ".git")
         return {"op": "git", "repo": repo, "dir": case["dir"], "ext": case["ext"],
-                "sel": resolve_selector(case["sel"], cid), "checkout": info["checkouts"][case["commit"]],
+                "sel": resolve_selector(case["sel"], cid, info["short"][case["commit"]]), "checkout": info["checkouts"][case["commit"]],
                 "via_settings": bool(case.get("via_settings")), "cfg": case.get("cfg", {}),
                 "want": ["txns", "identity", "meta"], "cli": case.get("cli")}
 
@@ -791,7 +813,7 @@ class C08(PropBase):
     def loaded_paths(case, txns):
         """which files were loaded: descriptions carry the version tag, the commit's state maps it to the path"""
         state = replay_states(case["hist"])[case["commit"]]
-        by_tag = {v["tag"]: p for p, v in state.items() if v["k"] != "link"}
+        by_tag = {v["tag"]: p for p, v in state.items() if v["k"] not in ("link", "gitlink")}
         out = set()
         for t in txns:
             d = (t.get("desc") or "")
@@ -851,7 +873,7 @@ class C08(PropBase):
         for p, v in sorted(state.items()):
             if under(parts, p):
                 exists = True
-                if v["k"] != "link" and real_ext(p.split("/")[-1]) == ext:
+                if v["k"] not in ("link", "gitlink") and real_ext(p.split("/")[-1]) == ext:
                     files.append((p, v["k"], v["tag"]))
         descs = []
         ok = True
@@ -909,7 +931,7 @@ class C08(PropBase):
         exp = self.expected(case)
         self.remember(case)
         self.tally(case, impl)
-        sel = resolve_selector(case["sel"], cid)
+        sel = resolve_selector(case["sel"], cid, info["short"][case["commit"]])
         if g["r"] == "ERR" and is_tag_ancestor_form(case) and "ancestor" in (g.get("msg") or ""):
             return {"sig": "K1:annotated-tag-ancestor", "what": "revision %r (annotated tag + ~1) is not resolved: %s" % (
                 sel["ref"], (g.get("msg") or "")[:200])}
